@@ -14,6 +14,8 @@ inductive Expect
   | allow      -- an instantiation of a database form in a mode the form's `arch` allows (and AsmJit implements the form)
   | exclude    -- an instantiation of a database form in a mode no form with these operands allows
   | any        -- a near-miss mutation: the database makes no statement, only the two verdicts are compared
+  | regExcluded  -- a register id the architecture does not have for that register class in that mode (k8.., r8.. in
+                 -- 32-bit mode, r16.., xmm8.. in 32-bit mode): strict validation must refuse
   | decoExcluded -- an implemented EVEX register form decorated with {er}/{sae} that no database form of it carries:
                  -- validator AND assembler (validation off) must refuse - the assembler has its own {er}/{sae} tests
   deriving DecidableEq, Repr
@@ -39,6 +41,7 @@ def violation (exp : Expect) (o : Outcome) : Option String :=
     | .allow => if o.v != "Ok" then some "db-form-refused-by-validator" else if o.e0.1 != "Ok" then some "db-form-refused-by-encoder" else none
     | .exclude => if o.v == "Ok" then some "validator-accepts-excluded-mode" else none
     | .any => none
+    | .regExcluded => if o.v == "Ok" then some "validator-accepts-nonexistent-register" else none
     | .decoExcluded =>
       if o.v == "Ok" then some "validator-accepts-excluded-decoration"
       else if o.e0.1 == "Ok" then some "encoder-accepts-excluded-decoration"
